@@ -19,6 +19,7 @@ import (
 	"verifharness/gen"
 	"verifharness/mc"
 	"verifharness/props/reg"
+	"verifharness/sched"
 )
 
 func init() { reg.Register(&reg.Prop{ID: "C10", Run: Run, Replay: Replay}) }
@@ -900,6 +901,9 @@ func Run(r *mc.Run) {
 			os.RemoveAll(fileRootDir)
 		}
 	}()
+	// the same entry points called at the same time on independent inputs: every schedule of small thread programs (instrumented build)
+	sched.Explore(r, "concurrent-calls", ConcurrentPrograms())
+
 	k := r.Pick(2, 3)
 	for i := range kinds {
 		kd := &kinds[i]
@@ -916,6 +920,9 @@ func Run(r *mc.Run) {
 }
 
 func Replay(scenario string, raw json.RawMessage) []*mc.Violation {
+	if scenario == "concurrent-calls" {
+		return sched.Replay(scenario, ConcurrentPrograms(), raw)
+	}
 	var in In
 	if mc.UnmarshalInput(raw, &in) != nil || kindByName(in.Kind) == nil {
 		return nil
